@@ -108,7 +108,7 @@ package provisioning
 //verif:modifies liveCP(recv, id)[*], liveCP(recv, id), ptr(conn_inst(recv, id), "*connector.Instance").UpdatedAt
 //verif:ensures[appends] err == nil ==> len(liveCP(recv, id)) == old(len(liveCP(recv, id))) + 1 && liveCP(recv, id)[len(liveCP(recv, id)) - 1] == procID && forall m in [0, old(len(liveCP(recv, id)))): liveCP(recv, id)[m] == old(liveCP(recv, id)[m])
 //verif:ensures[unchanged-on-error] err != nil ==> len(liveCP(recv, id)) == old(len(liveCP(recv, id))) && forall m in [0, len(liveCP(recv, id))): liveCP(recv, id)[m] == old(liveCP(recv, id)[m])
-//verif:ensures[in-place-or-fresh] base(liveCP(recv, id)) == old(base(liveCP(recv, id))) || fresh(liveCP(recv, id))
+//verif:ensures[in-place-or-fresh] !isnil(liveCP(recv, id)) && (base(liveCP(recv, id)) == old(base(liveCP(recv, id))) || fresh(liveCP(recv, id)))
 
 //verif:func (updateConnectorAction).isEqual(a, ids, processors) (r)
 //verif:pure
@@ -120,6 +120,72 @@ package provisioning
 //verif:call[remove-only-listed] ConnectorService.RemoveProcessor requires arg1 == cfg.ID && exists x in [0, len(liveCP(a.connectorService, cfg.ID))): liveCP(a.connectorService, cfg.ID)[x] == arg2
 //verif:ensures[converges] err == nil ==> len(liveCP(a.connectorService, cfg.ID)) == len(cfg.Processors) && forall k in [0, len(cfg.Processors)): liveCP(a.connectorService, cfg.ID)[k] == cfg.Processors[k].ID
 //verif:loop 0 vars j=rangeindex
-//verif:loop 0 invariant j < len(procIDs) && base(procIDs) != base(liveCP(a.connectorService, cfg.ID)) && c == ptr(conn_inst(a.connectorService, cfg.ID), "*connector.Instance") && len(liveCP(a.connectorService, cfg.ID)) == len(procIDs) - (j + 1) && forall m in [0, len(liveCP(a.connectorService, cfg.ID))): liveCP(a.connectorService, cfg.ID)[m] == procIDs[j + 1 + m]
+//verif:loop 0 invariant j < len(procIDs) && base(procIDs) != base(liveCP(a.connectorService, cfg.ID)) && c == ptr(conn_inst(a.connectorService, cfg.ID), "*connector.Instance") && len(liveCP(a.connectorService, cfg.ID)) == len(procIDs) - (j + 1) && (len(liveCP(a.connectorService, cfg.ID)) > 0 ==> liveCP(a.connectorService, cfg.ID)[0] == procIDs[j + 1]) && forall m in [0, len(liveCP(a.connectorService, cfg.ID))): liveCP(a.connectorService, cfg.ID)[m] == procIDs[j + 1 + m]
 //verif:loop 1 vars j1=rangeindex
 //verif:loop 1 invariant j1 < len(cfg.Processors) && len(liveCP(a.connectorService, cfg.ID)) == j1 + 1 && forall m in [0, j1 + 1): liveCP(a.connectorService, cfg.ID)[m] == cfg.Processors[m].ID
+
+//verif:def plInst(svc, id) = ptr(pl_inst(svc, id), "*pipeline.Instance")
+//verif:def livePC(svc, id) = ptr(pl_inst(svc, id), "*pipeline.Instance").ConnectorIDs
+//verif:def livePP(svc, id) = ptr(pl_inst(svc, id), "*pipeline.Instance").ProcessorIDs
+
+//verif:iface PipelineService.Update(recv, ctx, id, cfg) (inst, err)
+//verif:modifies plInst(recv, id).Config, plInst(recv, id).UpdatedAt
+//verif:ensures[returns-held-instance] err == nil ==> inst != nil && inst == plInst(recv, id)
+
+//verif:iface PipelineService.UpdateDLQ(recv, ctx, id, cfg) (inst, err)
+//verif:modifies plInst(recv, id).DLQ, plInst(recv, id).UpdatedAt
+
+//verif:iface PipelineService.RemoveConnector(recv, ctx, id, connID) (inst, err)
+//verif:modifies livePC(recv, id)[*], livePC(recv, id), plInst(recv, id).UpdatedAt
+//verif:ensures[removes-first-occurrence] err == nil ==> len(livePC(recv, id)) == old(len(livePC(recv, id))) - 1 && exists x in [0, old(len(livePC(recv, id)))): old(livePC(recv, id)[x]) == connID && (forall m in [0, x): old(livePC(recv, id)[m]) != connID && livePC(recv, id)[m] == old(livePC(recv, id)[m])) && (forall m in [x, len(livePC(recv, id))): livePC(recv, id)[m] == old(livePC(recv, id)[m + 1]))
+//verif:ensures[unchanged-on-error] err != nil ==> len(livePC(recv, id)) == old(len(livePC(recv, id))) && forall m in [0, len(livePC(recv, id))): livePC(recv, id)[m] == old(livePC(recv, id)[m])
+//verif:ensures[in-place-or-fresh] base(livePC(recv, id)) == old(base(livePC(recv, id))) || fresh(livePC(recv, id)) || isnil(livePC(recv, id))
+
+//verif:iface PipelineService.AddConnector(recv, ctx, id, connID) (inst, err)
+//verif:modifies livePC(recv, id)[*], livePC(recv, id), plInst(recv, id).UpdatedAt
+//verif:ensures[appends] err == nil ==> len(livePC(recv, id)) == old(len(livePC(recv, id))) + 1 && livePC(recv, id)[len(livePC(recv, id)) - 1] == connID && forall m in [0, old(len(livePC(recv, id)))): livePC(recv, id)[m] == old(livePC(recv, id)[m])
+//verif:ensures[unchanged-on-error] err != nil ==> len(livePC(recv, id)) == old(len(livePC(recv, id))) && forall m in [0, len(livePC(recv, id))): livePC(recv, id)[m] == old(livePC(recv, id)[m])
+//verif:ensures[in-place-or-fresh] !isnil(livePC(recv, id)) && (base(livePC(recv, id)) == old(base(livePC(recv, id))) || fresh(livePC(recv, id)))
+
+//verif:iface PipelineService.RemoveProcessor(recv, ctx, id, procID) (inst, err)
+//verif:modifies livePP(recv, id)[*], livePP(recv, id), plInst(recv, id).UpdatedAt
+//verif:ensures[removes-first-occurrence] err == nil ==> len(livePP(recv, id)) == old(len(livePP(recv, id))) - 1 && exists x in [0, old(len(livePP(recv, id)))): old(livePP(recv, id)[x]) == procID && (forall m in [0, x): old(livePP(recv, id)[m]) != procID && livePP(recv, id)[m] == old(livePP(recv, id)[m])) && (forall m in [x, len(livePP(recv, id))): livePP(recv, id)[m] == old(livePP(recv, id)[m + 1]))
+//verif:ensures[unchanged-on-error] err != nil ==> len(livePP(recv, id)) == old(len(livePP(recv, id))) && forall m in [0, len(livePP(recv, id))): livePP(recv, id)[m] == old(livePP(recv, id)[m])
+//verif:ensures[in-place-or-fresh] base(livePP(recv, id)) == old(base(livePP(recv, id))) || fresh(livePP(recv, id)) || isnil(livePP(recv, id))
+
+//verif:iface PipelineService.AddProcessor(recv, ctx, id, procID) (inst, err)
+//verif:modifies livePP(recv, id)[*], livePP(recv, id), plInst(recv, id).UpdatedAt
+//verif:ensures[appends] err == nil ==> len(livePP(recv, id)) == old(len(livePP(recv, id))) + 1 && livePP(recv, id)[len(livePP(recv, id)) - 1] == procID && forall m in [0, old(len(livePP(recv, id)))): livePP(recv, id)[m] == old(livePP(recv, id)[m])
+//verif:ensures[unchanged-on-error] err != nil ==> len(livePP(recv, id)) == old(len(livePP(recv, id))) && forall m in [0, len(livePP(recv, id))): livePP(recv, id)[m] == old(livePP(recv, id)[m])
+//verif:ensures[in-place-or-fresh] !isnil(livePP(recv, id)) && (base(livePP(recv, id)) == old(base(livePP(recv, id))) || fresh(livePP(recv, id)))
+
+//verif:func (updatePipelineAction).isEqualConnectors(a, ids, connectors) (r)
+//verif:pure
+//verif:ensures[same-ids-same-order] r <==> (len(ids) == len(connectors) && forall k in [0, len(ids)): ids[k] == connectors[k].ID)
+//verif:loop 0 vars k=rangeindex
+//verif:loop 0 invariant k < len(ids) && len(ids) == len(connectors) && forall m in [0, k + 1): ids[m] == connectors[m].ID
+
+//verif:func (updatePipelineAction).isEqualProcessors(a, ids, processors) (r)
+//verif:pure
+//verif:ensures[same-ids-same-order] r <==> (len(ids) == len(processors) && forall k in [0, len(ids)): ids[k] == processors[k].ID)
+//verif:loop 0 vars k=rangeindex
+//verif:loop 0 invariant k < len(ids) && len(ids) == len(processors) && forall m in [0, k + 1): ids[m] == processors[m].ID
+
+//verif:def convC(svc, id, cfg) = len(livePC(svc, id)) == len(cfg.Connectors) && forall k in [0, len(cfg.Connectors)): livePC(svc, id)[k] == cfg.Connectors[k].ID
+//verif:def convP(svc, id, cfg) = len(livePP(svc, id)) == len(cfg.Processors) && forall k in [0, len(cfg.Processors)): livePP(svc, id)[k] == cfg.Processors[k].ID
+//verif:def distinctPL(svc, id) = base(livePC(svc, id)) != base(livePP(svc, id)) || isnil(livePC(svc, id))
+
+//verif:func (updatePipelineAction).update(a, ctx, cfg) (err)
+//verif:assume distinctPL(a.pipelineService, cfg.ID) because "the two id lists of a pipeline instance are separate allocations (built by append / JSON decoding), never sub-slices of one another"
+//verif:call[remove-only-listed-connector] PipelineService.RemoveConnector requires arg1 == cfg.ID && exists x in [0, len(livePC(a.pipelineService, cfg.ID))): livePC(a.pipelineService, cfg.ID)[x] == arg2
+//verif:call[remove-only-listed-processor] PipelineService.RemoveProcessor requires arg1 == cfg.ID && exists x in [0, len(livePP(a.pipelineService, cfg.ID))): livePP(a.pipelineService, cfg.ID)[x] == arg2
+//verif:ensures[connectors-converge] err == nil ==> convC(a.pipelineService, cfg.ID, cfg)
+//verif:ensures[processors-converge] err == nil ==> convP(a.pipelineService, cfg.ID, cfg)
+//verif:loop 0 vars j0=rangeindex
+//verif:loop 0 invariant j0 < len(connectorIDs) && p == plInst(a.pipelineService, cfg.ID) && distinctPL(a.pipelineService, cfg.ID) && base(connectorIDs) != base(livePC(a.pipelineService, cfg.ID)) && len(livePC(a.pipelineService, cfg.ID)) == len(connectorIDs) - (j0 + 1) && (len(livePC(a.pipelineService, cfg.ID)) > 0 ==> livePC(a.pipelineService, cfg.ID)[0] == connectorIDs[j0 + 1]) && forall m in [0, len(livePC(a.pipelineService, cfg.ID))): livePC(a.pipelineService, cfg.ID)[m] == connectorIDs[j0 + 1 + m]
+//verif:loop 1 vars j1=rangeindex
+//verif:loop 1 invariant j1 < len(cfg.Connectors) && p == plInst(a.pipelineService, cfg.ID) && distinctPL(a.pipelineService, cfg.ID) && len(livePC(a.pipelineService, cfg.ID)) == j1 + 1 && forall m in [0, j1 + 1): livePC(a.pipelineService, cfg.ID)[m] == cfg.Connectors[m].ID
+//verif:loop 2 vars j2=rangeindex
+//verif:loop 2 invariant j2 < len(processorIDs) && convC(a.pipelineService, cfg.ID, cfg) && distinctPL(a.pipelineService, cfg.ID) && base(processorIDs) != base(livePP(a.pipelineService, cfg.ID)) && len(livePP(a.pipelineService, cfg.ID)) == len(processorIDs) - (j2 + 1) && (len(livePP(a.pipelineService, cfg.ID)) > 0 ==> livePP(a.pipelineService, cfg.ID)[0] == processorIDs[j2 + 1]) && forall m in [0, len(livePP(a.pipelineService, cfg.ID))): livePP(a.pipelineService, cfg.ID)[m] == processorIDs[j2 + 1 + m]
+//verif:loop 3 vars j3=rangeindex
+//verif:loop 3 invariant j3 < len(cfg.Processors) && convC(a.pipelineService, cfg.ID, cfg) && distinctPL(a.pipelineService, cfg.ID) && len(livePP(a.pipelineService, cfg.ID)) == j3 + 1 && forall m in [0, j3 + 1): livePP(a.pipelineService, cfg.ID)[m] == cfg.Processors[m].ID
